@@ -55,6 +55,7 @@ import (
 	"fmt"
 	"hash/fnv"
 	"os"
+	"os/exec"
 	"path/filepath"
 	"regexp"
 	"sort"
@@ -576,6 +577,10 @@ type caseDesc struct {
 	Op       string   `json:"operation"`
 	Tree     tree     `json:"tree"`
 	Patterns []string `json:"patterns"`
+	// History: pattern lists with which the same operation is applied (to a copy of the same tree) earlier in the same
+	// process. Empty for almost every case: the property quantifies over single calls, whose outcome must not depend
+	// on what the process did before; it is filled in when a verdict only shows after such an earlier call.
+	History [][]string `json:"history,omitempty"`
 	// filled in when a verdict is produced
 	Clause   string   `json:"clause,omitempty"`
 	Entry    string   `json:"entry,omitempty"`
@@ -1041,7 +1046,73 @@ func (ck *checker) wantSample(g *group, ti, pi int, backend string) bool {
 	}
 }
 
+// runWithHistory applies the operation with each pattern list of cd.History to a fresh copy of the tree, then runs the case.
+func runWithHistory(cd caseDesc, dir string) (opResult, []verdict, error) {
+	op, _ := opByName(cd.Op)
+	for _, h := range cd.History {
+		w, err := newWorld(cd.Backend, dir)
+		if err != nil {
+			return opResult{}, nil, err
+		}
+		if err := w.build(cd.Tree); err != nil {
+			return opResult{}, nil, err
+		}
+		_ = w.run(op, h)
+	}
+	return runCase(cd.Backend, dir, cd.Mode, cd.Tree, cd.Patterns, op)
+}
+
+// probe (env VERIF_C08_PROBE=<file with a caseDesc>): runs the case with its history in this fresh process and prints the
+// cores of the verdicts. Used by the parent to find out whether a verdict that does not show on a single call depends on
+// an earlier call of the same process.
+func probe(path string) {
+	var cd caseDesc
+	b, err := os.ReadFile(path)
+	if err == nil {
+		err = json.Unmarshal(b, &cd)
+	}
+	if err != nil {
+		fmt.Printf("PROBE-ERROR %v\n", err)
+		return
+	}
+	dir, err := os.MkdirTemp("/dev/shm", "verif-c08-probe-")
+	if err != nil {
+		fmt.Printf("PROBE-ERROR %v\n", err)
+		return
+	}
+	defer os.RemoveAll(dir)
+	_, vs, err := runWithHistory(cd, dir)
+	if err != nil {
+		fmt.Printf("PROBE-ERROR %v\n", err)
+		return
+	}
+	for _, v := range vs {
+		fmt.Printf("PROBE-CORE %s\n", v.core)
+	}
+	fmt.Println("PROBE-DONE")
+}
+
+// probeInFreshProcess says whether the case, preceded by its history, yields the verdict `core` in a fresh process.
+func probeInFreshProcess(cd caseDesc, core, dir string) (bool, error) {
+	f := filepath.Join(dir, "probe.json")
+	b, _ := json.Marshal(cd)
+	if err := os.WriteFile(f, b, 0o644); err != nil {
+		return false, err
+	}
+	cmd := exec.Command(os.Args[0], "-test.run", "^TestC08$")
+	cmd.Env = append(os.Environ(), "VERIF_C08_PROBE="+f, "GOMAXPROCS=1")
+	out, err := cmd.CombinedOutput()
+	if !strings.Contains(string(out), "PROBE-DONE") {
+		return false, fmt.Errorf("probe process: %v: %s", err, out)
+	}
+	return strings.Contains(string(out), "PROBE-CORE "+core+"\n"), nil
+}
+
 func TestC08(t *testing.T) {
+	if p := os.Getenv("VERIF_C08_PROBE"); p != "" {
+		probe(p)
+		return
+	}
 	if p := os.Getenv("VERIF_REPLAY"); p != "" {
 		replay(p)
 		return
@@ -1191,6 +1262,8 @@ func TestC08(t *testing.T) {
 	}
 
 	// ---- violations: every stored case is replayed 5 times on a fresh world before it is believed
+	historySearches := 0
+	var foundHistories [][]string
 	cores := make([]string, 0, len(viols))
 	for c := range viols {
 		cores = append(cores, c)
@@ -1222,7 +1295,46 @@ func TestC08(t *testing.T) {
 			}
 		}
 		if !stable {
-			rep.EngineError("case for %s did not reproduce 5 times out of 5: %+v", sig, a.Replay)
+			// The verdict was produced in a worker that had made other calls before and does not show on a single call
+			// in this process: does it depend on an earlier call? Search the pattern lists of the run for one that,
+			// used first in a fresh process, makes the verdict appear (every candidate in its own process, 3 times).
+			var hist [][]string
+			try := func(h []string) bool {
+				if strings.Join(h, "\x00") == strings.Join(a.Replay.Patterns, "\x00") {
+					return false
+				}
+				cd := a.Replay
+				cd.History = [][]string{h}
+				for k := 0; k < 3; k++ {
+					if ok, err := probeInFreshProcess(cd, core, shm); err != nil || !ok {
+						return false
+					}
+				}
+				hist = cd.History
+				return true
+			}
+			for _, h := range foundHistories { // what explained another verdict first
+				if try(h) {
+					break
+				}
+			}
+			if hist == nil && historySearches < 6 {
+				historySearches++
+				for _, g := range groups {
+					for _, h := range g.lists {
+						if hist == nil && try(h) {
+							foundHistories = append(foundHistories, h)
+						}
+					}
+				}
+			}
+			if hist == nil {
+				rep.EngineError("case for %s did not reproduce 5 times out of 5 and no earlier call that makes it appear was found: %+v", sig, a.Replay)
+				continue
+			}
+			a.Replay.History = hist
+			a.Replay.Note = "the verdict shows only when the same process has applied the operation with the pattern lists of 'history' before: VERIF_REPLAY re-runs history, then the case"
+			rep.ViolationN(core+":depends-on-earlier-call:backend="+be, a.Replay, n)
 			continue
 		}
 		a.Replay.Note = "VERIF_REPLAY re-runs this case: the operation is applied to <base>/r00t holding the tree, with the patterns"
@@ -1298,7 +1410,10 @@ func replay(path string) {
 		return
 	}
 	cd := doc.Replay
-	r, vs, err := runCase(cd.Backend, shm, cd.Mode, cd.Tree, cd.Patterns, op)
+	for _, h := range cd.History {
+		fmt.Printf("replay: first, the same operation with patterns %q on a copy of the tree\n", h)
+	}
+	r, vs, err := runWithHistory(cd, shm)
 	if err != nil {
 		fmt.Printf("ENGINE-ERROR: property=C08 cannot build the case: %v\n", err)
 		ev.ExitCode = 2
